@@ -42,6 +42,8 @@ pub struct ExecStats {
     pub per_probe: Vec<String>,
     pub dated_contracts_checked: u64,
     pub dated_contracts_near_year_boundary: u64,
+    pub option_contracts_checked: u64,
+    pub option_strikes_with_3_or_more_decimals: u64,
 }
 
 pub struct ExecResult {
@@ -297,6 +299,32 @@ pub fn exec_case(case: &Case, env: &Env) -> ExecResult {
                         ins.kind.class(),
                         t.token
                     ),
+                    probe: None,
+                });
+                return res;
+            }
+        }
+    }
+    // 1c. option contracts: the venue's market id of an option names the strike and the right
+    // ("...-<strike>-C" / "...-<strike>-P" on both Okx and Gateio, as documented in the repo). The strike in
+    // the subscribed market must be NUMERICALLY the contract's strike and the right must be the contract's,
+    // otherwise the subscription addresses a neighbouring contract of the chain.
+    if case.sub_type == SubType::Keyed && matches!(def.venue, Venue::Okx | Venue::GateioDeriv) {
+        use std::str::FromStr;
+        for (ins, t) in case.instruments.iter().zip(&toks) {
+            let KindSpec::Option { call, strike, .. } = &ins.kind else { continue };
+            let want = rust_decimal::Decimal::from_str(strike).expect("strike");
+            let mut segs = t.token.rsplit('-');
+            let right = segs.next().unwrap_or("");
+            let got = segs.next().and_then(|x| rust_decimal::Decimal::from_str(x).ok());
+            res.stats.option_contracts_checked += 1;
+            if want.scale() > 2 {
+                res.stats.option_strikes_with_3_or_more_decimals += 1;
+            }
+            if got != Some(want) || right != if *call { "C" } else { "P" } {
+                res.fired.push(Fired {
+                    signature: "option_market_does_not_carry_its_strike_and_right",
+                    detail: format!("{}: {} option {}/{} strike {strike} is subscribed under venue market {:?} (strike segment {:?}, right {right:?})", def.name, if *call { "call" } else { "put" }, ins.base, ins.quote, t.token, got),
                     probe: None,
                 });
                 return res;
